@@ -926,6 +926,9 @@ class Harness:
         return p
 
     def maybe_fail_socket_creation(self):
+        hook = getattr(self, "socket_creation_hook", None)
+        if hook is not None:
+            hook()        # a scenario may hold the creating thread here (a delay only)
         if self.socket_failures > 0:
             self.socket_failures -= 1
             self.counters["socket.creation_failed"] += 1
